@@ -47,6 +47,7 @@ def native_run(jobs, timeout=600):
         return []
     env = dict(os.environ)
     env["PYTHONPATH"] = ROOT + os.pathsep + REPO
+    env["DVERIF_REPO"] = REPO
     env.pop("PYTHONHOME", None)
     p = subprocess.run([VENV_PY, "-m", "dverif.native"], input=json.dumps(jobs), capture_output=True,
                        text=True, env=env, cwd=ROOT, timeout=timeout)
@@ -276,8 +277,9 @@ def cmd_check(prop, tier, seed, only=None, jobs=None):
         },
         "assumptions": list(entry.get("assumptions", [])) + registry.GLOBAL_ASSUMPTIONS,
     }
-    os.makedirs(os.path.join(ROOT, "evidence"), exist_ok=True)
-    with open(os.path.join(ROOT, "evidence", "%s.json" % prop), "w") as f:
+    evdir = os.environ.get("DVERIF_EVIDENCE_DIR") or os.path.join(ROOT, "evidence")
+    os.makedirs(evdir, exist_ok=True)
+    with open(os.path.join(evdir, "%s.json" % prop), "w") as f:
         json.dump(ev, f, indent=1, default=str)
     for l in lines:
         print(l)
